@@ -32,7 +32,8 @@ def fbits(dt, x):
 
 
 class Gen:
-    def __init__(self, root):
+    def __init__(self, root, repo="/repo"):
+        self.dict = source_dictionary(repo)
         self.s = json.load(open(os.path.join(root, "work", "schema.json")))
         self.dfs, self.strs, self.frags = self.s["dfs"], self.s["strs"], self.s["frags"]
         self.consts = self.s["consts"]
@@ -57,6 +58,31 @@ class Gen:
             if r.random() < 0.15:
                 return ["N"]
             toks.append("S")
+        newi = self.dict.get("new_ints", [])
+        if mode != "safe" and (r.random() < 0.12 or (newi and r.random() < 0.25)):
+            # a number that occurs as a literal somewhere in the crate's sources (or next to one)
+            if dt in ("f32", "f64"):
+                res = float(eval_expr(d["res"])) if d["res"] else 1.0
+                bias = float(eval_expr(d["bias"])) if d["bias"] else 0.0
+                v = r.choice(newi if (newi and r.random() < 0.7) else self.dict["ints"]) * r.choice([1, 1, -1])
+                x = r.choice([float(v), v * res + bias, (v + r.choice([0.0, 0.45, 0.5, -0.45])) * res + bias,
+                              r.choice(self.dict["floats"] or [0.0]) * r.choice([1, -1])])
+                if mode == "valid":
+                    x = min(max(x, lo * res + bias), hi * res + bias)
+                toks.append("f%x" % fbits(dt, x))
+            else:
+                dlo, dhi = DT_RANGE[dt]
+                cand = [v for v in self.dict["ints"] if dlo <= v <= dhi] + [-v for v in self.dict["ints"] if dlo <= -v < 0]
+                z = r.choice(cand or [0])
+                nc = [v for v in newi if dlo <= v <= dhi] + [-v for v in newi if dlo <= -v < 0]
+                if nc and r.random() < 0.7:
+                    z = r.choice(nc)
+                if mode == "valid":
+                    res_i = int(eval_expr(d["res"])) if d["res"] else 1
+                    bias_i = int(eval_expr(d["bias"])) if d["bias"] else 0
+                    z = min(max(z, lo * res_i + bias_i), hi * res_i + bias_i)
+                toks.append("i%d" % z)
+            return toks
         if dt in ("f32", "f64"):
             res = float(eval_expr(d["res"])) if d["res"] else 1.0
             bias = float(eval_expr(d["bias"])) if d["bias"] else 0.0
@@ -92,7 +118,8 @@ class Gen:
         n = r.choice([0, 1, cap, cap - 1 if cap > 1 else 0, r.randrange(cap + 1)])
         if lens is not None:
             n = min(cap, lens)
-        alpha = list(range(32, 127)) * 3 + list(range(128, 256)) + ([0] if mode == "wild" else [])
+        alpha = list(range(32, 127)) * 3 + list(range(128, 256)) + ([0] if mode == "wild" else []) + \
+            [v for v in self.dict["ints"] if (1 if mode != "wild" else 0) <= v <= 255]
         return bytes(r.choice(alpha) for _ in range(n))
 
     def utf8_text(self, r, mode):
@@ -169,6 +196,11 @@ class Gen:
     def list_len(self, r, cap, lens):
         if lens is not None:
             return min(cap, lens)
+        nl = [v for v in self.dict.get("new_ints", []) if v <= cap]
+        if nl and r.random() < 0.4:
+            return r.choice(nl)
+        if r.random() < 0.2:
+            return r.choice([v for v in self.dict["ints"] if v <= cap] or [0])
         return r.choice([0, 1, cap, cap - 1, r.randrange(cap + 1), r.randrange(min(cap, 6) + 1)])
 
     # ------------------------------------------------------------------ MSM
@@ -194,6 +226,12 @@ class Gen:
         ns_max = max(1, min(64, max_cells // ng))
         ns = r.choice([1, ns_max, r.randrange(1, ns_max + 1), r.randrange(1, min(ns_max, 4) + 1)])
         S = r.sample(range(1, 65), ns)
+        if r.random() < 0.25:
+            cand = [v for v in self.dict["ints"] if 1 <= v <= 64]
+            S = r.sample(cand, min(ns, len(cand)))
+        ns_new = [v for v in self.dict.get("new_ints", []) if 1 <= v <= 64]
+        if ns_new and r.random() < 0.5:
+            S = list(dict.fromkeys(r.sample(ns_new, min(len(ns_new), max(1, ns // 2))) + S))[:max(ns, 1)]
         G = r.sample(pool, ng)
         cells = [(s, g) for s in S for g in G if r.random() < 0.6]
         # every satellite and signal used by some cell
